@@ -160,6 +160,7 @@ def eval_cell(cell):
     fd = bool(cell["fd"])
     op_in = "gradient-fd" if fd else "gradient"
     op_out = "gradient-outside-support-fd" if fd else "gradient-outside-support"
+    op_bnd = "gradient-on-boundary-fd" if fd else "gradient-on-boundary"
     compared = 0
     if cell["kind"] == "dist":
         gens = _generators(cell)
@@ -177,7 +178,8 @@ def eval_cell(cell):
         if fd:
             try:
                 for t in case.fd_targets:
-                    t.enable_FD(FD_EPS)
+                    if hasattr(t, "enable_FD"):     # members that are not Density objects (UserDefinedLikelihood) have no FD option
+                        t.enable_FD(FD_EPS)
             except Exception as e:
                 res.refused += 1
                 res.outcomes.add("%s:enable_FD-refused:%s" % (component, type(e).__name__))
@@ -236,6 +238,19 @@ def eval_cell(cell):
             if o["status"] in ("ok", "bad"):
                 compared += 1
                 res.evaluations += 1
+        # points exactly ON a finite bound of the support (faces and corners of the box), judged by the object's own logd:
+        # logd = -inf there -> raises or not finite; logd finite there -> raises or the one-sided derivative of logd
+        bkeys = [kk for kk in rkeys if kk != "xrep"] + ["at"]
+        for at, kind, x in case.boundary:
+            res.transitions += 1
+            o = E.observe_boundary(case, kind, x, fd, FD_EPS)
+            if o["status"] == "bad" and fd:
+                o["msg"] += " {%s}" % fkey
+            rec.add(rcomp, op_bnd, bkeys, dict(rfac, at=at), o)
+            _tally(res, component, "bnd", o)
+            if o["status"] in ("ok", "bad"):
+                compared += 1
+                res.evaluations += 1
         # the same integer-valued point in every representation (float64 / int64 arrays, list of python ints, float32
         # array, python int / float for a one-component variable): gradient raises, or is the derivative of the
         # object's logd at the float64 version of the point; outside the support: raises or not finite
@@ -279,6 +294,13 @@ def _tally(res, component, where, o, xrep=None):
             res.count("ok-in-vs-textbook-reference(logd refused)")
         if where == "in":
             res.outcomes.add("%s:in:equal%s" % (component, "" if o.get("shape_exact") else "(reshaped)"))
+        elif where == "bnd":
+            if o["branch"] == "finite":
+                res.count("ok-bnd:logd-finite:one-sided-derivative" + (":signed-inf-entries" if o["infinite_entries"] else ""))
+                res.outcomes.add("%s:bnd:logd-finite:equal-one-sided%s" % (component, "+signed-inf" if o["infinite_entries"] else ""))
+            else:
+                res.count("ok-bnd:logd-infinite:non-finite")
+                res.outcomes.add("%s:bnd:logd-infinite:%s" % (component, "all-nan" if o.get("allnan") else "non-finite"))
         else:
             res.outcomes.add("%s:out:%s" % (component, "all-nan" if o.get("allnan") else "non-finite"))
     else:
